@@ -29,12 +29,13 @@ let parse_cop toks = match toks with
   | ["get"; f] -> CGet (nat_of_int (int_of_string f))
   | ["check"; f] -> CCheck (nat_of_int (int_of_string f))
   | "pause" :: _ -> CPause
+  | "gate" :: _ -> CPause   (* harness-only scheduling directive (gated replay): a pause for model and spec *)
   | _ -> failwith ("bad op: " ^ String.concat " " toks)
 
 let nfut = 64
 let fn (a : z) : z = Z.add (Z.mul (z_of_int 7) a) (z_of_int 3)
 
-type case = { cfg : cfgk; mutable ops : (int * cop) list; mutable sched : (int * bool) list; mutable extra : string list list }
+type case = { cfg : cfgk; fixed : bool; mutable ops : (int * cop) list; mutable sched : (int * bool) list; mutable extra : string list list }
 
 let fut_of op = match op with CStart (f, _, _) | CAbort f | CJoin f | CGet f | CCheck f -> Some (int_of_nat f) | CPause -> None
 
@@ -53,7 +54,7 @@ let mk_config (c : case) : config =
   let cap = if c.cfg.lzy = 1 then z_of_int 256 else eff_cap (z_of_int c.cfg.q) in
   { c_cap = cap; c_min = z_of_int (if c.cfg.lzy = 1 then 0 else c.cfg.cmin);
     c_max = eff_max (z_of_int c.cfg.cmax); c_lazy = (c.cfg.lzy = 1); c_nfut = nat_of_int nfut;
-    c_scripts = scripts; c_fn = fn }
+    c_scripts = scripts; c_fn = fn; c_fixed = c.fixed }
 
 (* ---------------- printing ---------------- *)
 let st_char s = match s with StIdle -> "I" | StRunning -> "R" | StFinished -> "F" | StAborted -> "A"
@@ -152,7 +153,7 @@ let pc_name (p : pc) : string = match p with
       | PushPublish _ -> "push.publish" | PopRdHead -> "pop.rdhead" | PopRdSlot _ -> "pop.rdslot" | PopCas _ -> "pop.cas"
       | PopRead _ -> "pop.read" | PopRelease _ -> "pop.release" | PushRet _ -> "push.ret" | PopRet _ -> "pop.ret")
   | PFs (_, w, o) -> (match w with Enq -> "enq." | Deq -> "deq.") ^
-      (match o with FSet1 -> "set1" | FSet2 -> "set2" | FReset1 -> "reset1" | FReset2 -> "reset2" | FWait1 -> "wait1" | FWait2 -> "wait2")
+      (match o with FSet1 -> "set1" | FSet2 -> "set2" | FReset1 -> "reset1" | FReset2 -> "reset2" | FReset3 -> "reset3" | FWait1 -> "wait1" | FWait2 -> "wait2")
   | CSpin _ -> "spin" | CRecheck _ -> "recheck" | CSwapPool _ -> "swappool" | CUnlockPool _ -> "unlockpool"
   | CJoinWait _ -> "join.wait" | CJoinReset _ -> "join.reset" | CStartSet _ -> "startset"
   | CInc -> "inc.pushed" | CRdProc _ -> "rd.processed" | CRdTc _ -> "rd.tcount"
@@ -235,14 +236,18 @@ let () =
       if not valid then emit "invalid"
       else begin
         let sp = List.map spec_line (spec_run fn (List.init nfut (fun _ -> sfut_init)) (List.map (fun (cl, op) -> (nat_of_int cl, op)) ops)) in
-        if mode = "spec" then List.iter emit sp
+        let nstarts = List.length (List.filter (fun (_, op) -> match op with CStart _ -> true | _ -> false) ops) in
+        if mode = "spec" then begin List.iter emit sp; emit (Printf.sprintf "pool pushed %d tc_ok 1" nstarts) end
         else if mode = "model" then begin
           let rec attempt k =
             if k > 40 then None
             else match run_random cfg (!cur_case * 131 + k) 400000 with Some r -> Some r | None -> attempt (k + 1) in
           match attempt 0 with
           | None -> emit "! timeout"
-          | Some (_, tr) -> List.iter2 (fun m s -> emit (mask_with_spec m s)) (obs_lines c tr) sp
+          | Some (sf, tr) ->
+              List.iter2 (fun m s -> emit (mask_with_spec m s)) (obs_lines c tr) sp;
+              emit (Printf.sprintf "pool pushed %s tc_ok %d" (dec_of_z sf.st_pushed)
+                      (if Z.leb sf.st_tcount cfg.c_max && Z.leb (z_of_int 0) sf.st_tcount then 1 else 0))
         end
       end
     end
@@ -292,7 +297,7 @@ let () =
   in
   if mode = "search" then begin
     let cs = ref None in
-    run_cases file (fun cfgt -> let c = { cfg = parse_cfg cfgt; ops = []; sched = []; extra = [] } in cs := Some c; c)
+    run_cases file (fun cfgt -> let c = { cfg = parse_cfg cfgt; fixed = (try Sys.getenv "C10_ORIGINAL" <> "1" with Not_found -> true); ops = []; sched = []; extra = [] } in cs := Some c; c)
       (fun c _ toks -> (match toks with
           | "c" :: cl :: rest -> c.ops <- (int_of_string cl, parse_cop rest) :: c.ops
           | _ -> ()); c)
@@ -301,7 +306,7 @@ let () =
          let limit = if Array.length Sys.argv > 4 then int_of_string Sys.argv.(4) else 20000000 in
          search c bfs_ops limit)
   end else
-    run_cases file (fun cfgt -> { cfg = parse_cfg cfgt; ops = []; sched = []; extra = [] })
+    run_cases file (fun cfgt -> { cfg = parse_cfg cfgt; fixed = (try Sys.getenv "C10_ORIGINAL" <> "1" with Not_found -> true); ops = []; sched = []; extra = [] })
       (fun c _ toks -> (match toks with
           | "c" :: cl :: rest -> c.ops <- (int_of_string cl, parse_cop rest) :: c.ops
           | ["s"; t; clk] -> c.sched <- (int_of_string t, clk = "1") :: c.sched
